@@ -91,9 +91,38 @@ func vSchemaInt(v interface{}, field, key string, dflt int) int {
 	return dflt
 }
 
+// vSchemaMinimum: the smallest value of a numeric field that validation lets through. Validation
+// runs the JSON schema on the document re-marshalled from the Go struct: a field whose yaml tag
+// says omitempty disappears from that document when it is zero, so - unless the schema makes the
+// key required - an explicit zero is never seen by a `minimum` constraint.
+func vSchemaMinimum(v interface{}, field string, dflt int) int {
+	t := reflect.TypeOf(v)
+	for i := 0; i < t.NumField(); i++ {
+		f := t.Field(i)
+		if f.Name != field {
+			continue
+		}
+		yamlOmits, schemaOptional := false, false
+		for k, part := range strings.Split(f.Tag.Get("yaml"), ",") {
+			if k > 0 && part == "omitempty" {
+				yamlOmits = true
+			}
+		}
+		for _, part := range strings.Split(f.Tag.Get("jsonschema"), ",") {
+			if part == "omitempty" {
+				schemaOptional = true
+			}
+		}
+		if yamlOmits && schemaOptional {
+			return 0
+		}
+	}
+	return vSchemaInt(v, field, "minimum", dflt)
+}
+
 func vRetryPolicy() *RetryPolicy {
 	// maxAttempts: every value the schema admits from its minimum up to the bound
-	min := vSchemaInt(RetryPolicy{}, "MaxAttempts", "minimum", 0)
+	min := vSchemaMinimum(RetryPolicy{}, "MaxAttempts", 0)
 	p := &RetryPolicy{MaxAttempts: verifChoose("maxAttempts", verifBound("maxAttempts")+1-min) + min}
 	// every text below satisfies format=duration (time.ParseDuration accepts it)
 	switch verifChoose("waitDuration", 5) {
